@@ -26,7 +26,10 @@ def write_evidence(prop, tier, seed, aggs, violations, known_hits, wall, extra_a
     per_engine = {}
     for a in aggs:
         eng = orch.engine_module(a["engine"])
-        distinct += sum(1 for s, (n, nt) in a["shapes"].items() if nt)
+        if hasattr(eng, "distinct_nontrivial"):
+            distinct += eng.distinct_nontrivial(a)
+        else:
+            distinct += sum(1 for s, (n, nt) in a["shapes"].items() if nt)
         rules.append(f"[engine {a['engine']}] {eng.RULE}")
         samples += a["samples"][:4]
         hours = max(a["elapsed"], 1e-9) / 3600.0
